@@ -34,7 +34,6 @@ import (
 	"fmt"
 	"os"
 	"path/filepath"
-	"sort"
 	"strings"
 	"testing"
 	"time"
@@ -129,6 +128,7 @@ type run struct {
 	events []map[string]any
 	hist   []string
 	bid    string
+	cur    *behaviour
 }
 
 type lastIns struct {
@@ -178,7 +178,9 @@ func (r *run) toV(t time.Time) int64 {
 
 func (r *run) violate(pred, what string) {
 	r.res.Violate("c08/api/"+pred, fmt.Sprintf("authority.Cache/lease arithmetic %s (clock=%s) after %v: %s", pred, r.mode, r.hist, what),
-		map[string]any{"driver": "c08-deleg", "clock": r.mode, "behaviour": r.bid, "history": r.hist, "events": r.events})
+		map[string]any{"driver": "c08-deleg", "clock": r.mode, "behaviour": r.bid, "history": r.hist, "events": r.events,
+			"input": map[string]any{"parent": r.in.Parent, "clock": r.mode,
+				"behaviours": []any{map[string]any{"id": r.bid, "pub": r.cur.Pub, "steps": r.cur.Steps[:len(r.hist)]}}}})
 }
 
 func argInt(a any) int64 {
@@ -370,15 +372,20 @@ func (r *run) serveAnswer(z string) (bool, int64) {
 	return true, shown
 }
 
-func (r *run) observe() map[string]int64 {
+func (r *run) observe() (map[string]int64, map[string]bool) {
 	vis := map[string]int64{}
+	ret := map[string]bool{}
 	for z := range r.in.Parent {
 		raw, ok := r.ac.VerifC08Peek(r.key(z))
 		d, err := r.ac.Get(r.key(z))
+		ret[z] = err == nil
 		switch {
 		case err == nil:
 			exp := r.toV(d.ExpiresAt)
 			vis[z] = exp - r.vnow
+			if vis[z] < 0 {
+				vis[z] = 0
+			}
 			if exp <= r.vnow {
 				r.violate("GetHonoursLease", fmt.Sprintf("Get(%s) returned a delegation at now=%d whose stored deadline is %d", z, r.vnow, exp))
 			}
@@ -394,7 +401,7 @@ func (r *run) observe() map[string]int64 {
 			}
 		}
 	}
-	return vis
+	return vis, ret
 }
 
 func (r *run) tick(d int64) {
@@ -546,6 +553,7 @@ func (r *run) doStep(st step) (string, error) {
 
 func (r *run) runBehaviour(b behaviour) error {
 	r.bid = b.ID
+	r.cur = &b
 	r.ac = authority.NewCache()
 	r.base = time.Now().Truncate(time.Second)
 	r.off, r.vnow = 0, 0
@@ -580,8 +588,8 @@ func (r *run) runBehaviour(b behaviour) error {
 			hit, shown := r.serveAnswer(argStr(st.Args[0]))
 			ev["hit"], ev["shown"] = hit, shown
 		}
-		vis := r.observe()
-		ev["vis"] = vis
+		vis, ret := r.observe()
+		ev["vis"], ev["ret"] = vis, ret
 		gr := map[string]int64{}
 		for z := range r.in.Parent {
 			gr[z] = r.grant[z]
@@ -672,12 +680,13 @@ func TestShifterSelfTest(t *testing.T) {
 	for i, k := range keys {
 		ac.SetUntil(k, nil, &authority.Servers{Zone: fmt.Sprint(k)}, base.Add(time.Duration(ttls[i])*time.Second))
 	}
+	// raw reads: the self-test judges the shifter, not the cache's expiry rule
 	read := func() []int64 {
 		var out []int64
 		for _, k := range keys {
-			d, err := ac.Get(k)
-			if err != nil {
-				out = append(out, -1)
+			d, ok := ac.VerifC08Peek(k)
+			if !ok {
+				out = append(out, -1<<40)
 				continue
 			}
 			out = append(out, int64(d.ExpiresAt.Sub(ac.VerifC08Now())/time.Second))
@@ -690,13 +699,21 @@ func TestShifterSelfTest(t *testing.T) {
 		res.Skip("shifter rewrote %d of %d delegations", n, len(keys))
 	}
 	after := read()
-	want := []int64{43, 93, -1}
 	for i := range keys {
-		if after[i] != want[i] {
-			res.Skip("shifter self-test: key %d reported %d before and %d after Shift(%d), want %d", keys[i], before[i], after[i], d, want[i])
+		if after[i] != before[i]-d {
+			res.Skip("shifter self-test: key %d reported %d s left before and %d after Shift(%d), want %d", keys[i], before[i], after[i], d, before[i]-d)
 		}
 	}
-	sort.Slice(after, func(i, j int) bool { return after[i] < after[j] })
+	// the seam must be observationally the same clock
+	off := time.Duration(0)
+	ac.VerifC08SetNow(func() time.Time { return base.Add(off) })
+	off = d * time.Second
+	seam := read()
+	for i := range keys {
+		if seam[i] != after[i]-d {
+			res.Skip("clock seam self-test: key %d reported %d s left, want %d", keys[i], seam[i], after[i]-d)
+		}
+	}
 	res.Case("selftest")
 	res.Count("selftest_accessors", len(keys))
 	_ = middleware.ErrNoResponse
